@@ -132,13 +132,22 @@ def run_shard(spec):
                 fail("cli-test-verdict-wrong", f"status={status!r} stdout={stdout!r}")
         elif sample < 0.24:
             obs["gates"]["edit_refused"] += 1
+            # every path form: plain, nested, quoted, scope selectors of several depths
+            npath = rng.choice(["a", "a", "a.b", '"q r"', "@a", "@a", "@@a", "@a.b", "meta.broken"])
             for opk in ("set", "rm"):
                 try:
                     src = parse(text)
-                    got = set_value(src, "a", "1") if opk == "set" else remove_value(src, "a")
-                    fail("erroneous-document-edited", f"{opk} returned {got!r}", op=opk)
+                    got = set_value(src, npath, "1") if opk == "set" else remove_value(src, npath)
+                    fail("erroneous-document-edited", f"{opk} {npath} returned {got!r}", op=opk,
+                         path_form="scoped" if npath.startswith("@") else "plain")
                 except (ValueError, KeyError):
-                    pass
+                    try:
+                        after = src.rebuild()
+                    except Exception as exc:  # noqa: BLE001
+                        fail("rebuild-raised-after-refused-edit", f"{type(exc).__name__}: {exc}", op=opk)
+                        continue
+                    if after != text:
+                        fail("erroneous-document-changed-by-refused-edit", f"{opk} {npath}: {after!r}", op=opk)
                 except Exception as exc:  # noqa: BLE001
                     fail("undocumented-exception", f"{type(exc).__name__}: {exc}", op=opk,
                          exc=type(exc).__name__)
@@ -146,9 +155,10 @@ def run_shard(spec):
             obs["gates"]["value_refused"] += 1
             good = "{\n  a = 1;\n}\n"
             src = parse(good)
+            vpath = rng.choice(["a", "a", "fresh", "a.b", "@s", "@s.t"])
             try:
-                got = set_value(src, "a", text)
-                fail("erroneous-value-accepted", f"returned {got!r}")
+                got = set_value(src, vpath, text)
+                fail("erroneous-value-accepted", f"{vpath} returned {got!r}")
             except (ValueError, KeyError):
                 if src.rebuild() != good:
                     fail("document-changed-by-refused-value", repr(src.rebuild()))
